@@ -235,7 +235,7 @@ Section Opt.
 
   (* the block-level machine is Dist.v's single-process optimizer; only nb, upd, apply, dv, ds matter to it *)
   Definition blockP (cast : value -> value) (world gs nb : nat) (owner : nat -> nat) : params bstate value value :=
-    mkParams [] ds upd apply cast world gs nb owner 0%nat false true.
+    mkParams [] ds upd apply cast world gs nb owner 0%nat true true.     (* p_global_skip = true: skip rule as repaired (F6) *)
 
   (* ---- FSDP rank ------------------------------------------------------------------------------------------- *)
   (* block-level entry of a step: every block of a parameter without gradient is absent (global_grad_selector gets
